@@ -224,6 +224,33 @@ func runC04(c *Ctx) {
 		r.Check("C04.3", fmt.Sprintf("miss-appends-name:%d", i), !escaped, c.pos(e.From.Instrs[len(e.From.Instrs)-1]),
 			"from the miss edge every path appends the requested name to the miss list before the next iteration or a return")
 	}
+	// every looked-up name is classified: no path from the lookup to the next
+	// iteration (or a return) bypasses the miss/hit test of its result
+	for i, lk := range s.lookups {
+		lin, ok := lk.(ssa.Instruction)
+		if !ok {
+			continue
+		}
+		decision := func(in ssa.Instruction) bool {
+			iff, ok := in.(*ssa.If)
+			if !ok {
+				return false
+			}
+			for _, e := range s.missEdges {
+				if e.From == iff.Block() {
+					return true
+				}
+			}
+			return false
+		}
+		bypass := ir.CanReach(fn, ir.PathQuery{From: lin, ToAny: func(in ssa.Instruction) bool {
+			if _, isRet := in.(*ssa.Return); isRet {
+				return true
+			}
+			return s.loop != nil && in.Block() == s.loop.Header
+		}, Stop: decision})
+		r.Check("C04.3", fmt.Sprintf("every-name-classified:%d", i), !bypass, c.pos(lin), "every requested name reaches the resolved/unresolved decision: no path skips a name before it is known whether it resolved (a skipped miss would not be named)")
+	}
 	if s.loop == nil {
 		r.Undecided("C04.3", "request-loop", c.U.Pos(fn.Pos()), "no loop over the requested device names found")
 	} else {
